@@ -82,14 +82,27 @@ def describe_universe(universe):
 class World:
     def __init__(self, payload):
         self.payload = payload
-        self.root, self.butler = fixture.make_repo()
+        # payload["universe"]: None = the current dimensions.yaml, N = configs/old_dimensions/daf_butler_universeN.yaml
+        self.root, self.butler = fixture.make_repo(dimension_universe=payload.get("universe"))
         self.reg = self.butler.registry
         self.universe = self.butler.dimensions
         self.cache = {}
+        self.rec_index = {}
         self.insert_log = []
         for el, rec in payload.get("population", []):
             try:
-                self.reg.insertDimensionData(el, {k: dec(v) for k, v in rec.items()})
+                if el not in self.universe.elements.names:
+                    self.insert_log.append("no-such-element")
+                    continue
+                fields = set(self.universe[el].RecordClass.fields.names)
+                row = {}
+                for k, v in rec.items():
+                    # "?name": a field only older universes have (visit.visit_system); anything the universe's record
+                    # class does not know is dropped (day_obs / group are dimensions only in recent universes)
+                    name = k[1:] if k.startswith("?") else k
+                    if name in fields:
+                        row[name] = dec(v)
+                self.reg.insertDimensionData(el, row)
                 self.insert_log.append("ok")
             except Exception as e:  # noqa: BLE001
                 self.insert_log.append(ecls(e))
@@ -120,12 +133,15 @@ class World:
         Butler's in-memory dimension-record cache must not be what the expansions are compared with)"""
         fresh = fixture.open_repo(self.root, writeable=False)
         out = {}
+        self.rec_index = {}
         for e in self.universe.elements:
             if e.name in self.universe.skypix_dimensions.names:
                 continue
             rows = []
             for r in fresh.registry.queryDimensionRecords(e.name):
-                rows.append(self.rec_obs(e, r))
+                o = self.rec_obs(e, r)
+                rows.append(o)
+                self.rec_index[(e.name, json.dumps(o["key"]))] = r
             rows.sort(key=lambda x: json.dumps(x))
             out[e.name] = rows
         return out
@@ -156,7 +172,15 @@ class World:
             if k == "std":
                 return DataCoordinate.standardize(mapping, dimensions=dims, universe=self.universe,
                                                   defaults=self.defaults_dc if spec.get("defaults") else None, **kwargs)
+            if spec.get("records") is not None:
+                return self.reg.expandDataId(mapping, dimensions=dims, records=self.records_arg(spec["records"]),
+                                             withDefaults=bool(spec.get("defaults")), **kwargs)
             return self.reg.expandDataId(mapping, dimensions=dims, withDefaults=bool(spec.get("defaults")), **kwargs)
+        if k == "expdc":
+            kwargs = {a: dec(b) for a, b in spec.get("kwargs", [])}
+            extra = {} if spec.get("records") is None else {"records": self.records_arg(spec["records"])}
+            return self.reg.expandDataId(self.build(spec["of"]), dimensions=spec.get("dims"),
+                                         withDefaults=bool(spec.get("defaults")), **extra, **kwargs)
         if k == "sub":
             return self.build(spec["of"]).subset(spec["dims"])
         if k == "stddc":
@@ -166,6 +190,19 @@ class World:
         if k == "union":
             return self.build(spec["a"]).union(self.build(spec["b"]))
         raise ValueError(k)
+
+    def records_arg(self, entries):
+        """records= : [[element, key-values]] -> the stored DimensionRecord with that key (entries naming no stored row
+        are not passed); [element, None] -> an explicit None"""
+        out = {}
+        for el, key in entries:
+            if key is None:
+                out[el] = None
+                continue
+            r = self.rec_index.get((el, json.dumps([list(x) for x in key])))
+            if r is not None:
+                out[el] = r
+        return out
 
     def obs(self, d):
         items = [[k, enc(v)] for k, v in d.mapping.items()]
@@ -273,6 +310,27 @@ def op_putget(w: World, op):
             out["puts"].append({"ok": [[k, enc(v)] for k, v in ref.dataId.required.items()]})
         except Exception as e:  # noqa: BLE001
             out["puts"].append({"err": ecls(e), "msg": str(e)[:120]})
+    out["fdb"] = {}
+    for el in op.get("field_elements", []):
+        e = w.universe[el]
+        rows = []
+        for r in w.reg.queryDimensionRecords(el):
+            o = w.rec_obs(e, r)
+            skip = set(e.required.names) | set(e.implied.names) | {"id", "name"}
+            fields = []
+            for f in e.RecordClass.fields.names:
+                if f in skip:
+                    continue
+                v = getattr(r, f, None)
+                if isinstance(v, (int, str)) and not isinstance(v, bool):
+                    fields.append([f, enc(v)])
+            # the primary key under its field name too (`detector.id`, `exposure.id`)
+            if hasattr(e, "primaryKey"):
+                fields.append([e.primaryKey.name, o["key"][-1]])
+            o["fields"] = fields
+            rows.append(o)
+        rows.sort(key=lambda x: json.dumps(x))
+        out["fdb"][el] = rows
     for lk in op["lookups"]:
         did = {a: dec(b) for a, b in lk.get("mapping", [])}
         kw = {a: dec(b) for a, b in lk.get("kwargs", [])}
